@@ -51,6 +51,8 @@ pub struct FaultPlan {
     pub path_part: String,
     pub ordinal: usize,
     pub sticky: bool,
+    /// for a failing `write`: this many bytes of the buffer reach the file before the call fails
+    pub partial: usize,
 }
 
 type Inode = Arc<Mutex<Vec<u8>>>;
@@ -297,7 +299,22 @@ impl SimFile {
             return Ok(0);
         }
         let mut st = self.fs.lock().unwrap();
-        st.gate("write", &self.path)?;
+        if let Err(e) = st.gate("write", &self.path) {
+            let p = st.fault.as_ref().map(|f| f.partial).unwrap_or(0).min(buf.len());
+            if p > 0 {
+                let mut data = self.inode.lock().unwrap();
+                if at_end || self.append || self.cursor >= data.len() {
+                    data.extend_from_slice(&buf[..p]);
+                    self.cursor = data.len();
+                    drop(data);
+                    st.log(FsOp::Write {
+                        path: self.path.clone(),
+                        data: buf[..p].to_vec(),
+                    });
+                }
+            }
+            return Err(e);
+        }
         let mut data = self.inode.lock().unwrap();
         if at_end || self.append {
             self.cursor = data.len();
